@@ -127,51 +127,53 @@ def compute_dynamics(
     title = "--> Compute dynamics:"
     prog_bar = get_progress(progress_type)(num_steps, title)
     prog_bar.enter()
+    try:
 
-    for step in range(num_steps+1):
-        # -- apply pre measurement control --
-        pre_measurement_control, post_measurement_control = controls(step)
+        for step in range(num_steps+1):
+            # -- apply pre measurement control --
+            pre_measurement_control, post_measurement_control = controls(step)
 
-        if pre_measurement_control is not None:
+            if pre_measurement_control is not None:
+                current_node, current_edges = _apply_system_superoperator(
+                    current_node, current_edges, pre_measurement_control)
+
+            if step == num_steps:
+                break
+
+            # -- extract current state -- update field --
+            if record_all:
+                caps = _get_caps(process_tensors, step)
+                state_tensor = _apply_caps(current_node, current_edges, caps)
+                state = state_tensor.reshape(hs_dim, hs_dim)
+                states.append(state)
+
+            prog_bar.update(step)
+
+            # -- apply post measurement control --
+            if post_measurement_control is not None:
+                current_node, current_edges = _apply_system_superoperator(
+                    current_node, current_edges, post_measurement_control)
+
+            # -- propagate one time step --
+            first_half_prop, second_half_prop = propagators(step)
+            pt_mpos = _get_pt_mpos(process_tensors, step)
+
             current_node, current_edges = _apply_system_superoperator(
-                current_node, current_edges, pre_measurement_control)
-
-        if step == num_steps:
-            break
-
-        # -- extract current state -- update field --
-        if record_all:
-            caps = _get_caps(process_tensors, step)
-            state_tensor = _apply_caps(current_node, current_edges, caps)
-            state = state_tensor.reshape(hs_dim, hs_dim)
-            states.append(state)
-
-        prog_bar.update(step)
-
-        # -- apply post measurement control --
-        if post_measurement_control is not None:
+                current_node, current_edges, first_half_prop)
+            current_node, current_edges = _apply_pt_mpos(
+                current_node, current_edges, pt_mpos)
             current_node, current_edges = _apply_system_superoperator(
-                current_node, current_edges, post_measurement_control)
+                current_node, current_edges, second_half_prop)
 
-        # -- propagate one time step --
-        first_half_prop, second_half_prop = propagators(step)
-        pt_mpos = _get_pt_mpos(process_tensors, step)
+        # -- extract last state --
+        caps = _get_caps(process_tensors, step)
+        state_tensor = _apply_caps(current_node, current_edges, caps)
+        final_state = state_tensor.reshape(hs_dim, hs_dim)
+        states.append(final_state)
 
-        current_node, current_edges = _apply_system_superoperator(
-            current_node, current_edges, first_half_prop)
-        current_node, current_edges = _apply_pt_mpos(
-            current_node, current_edges, pt_mpos)
-        current_node, current_edges = _apply_system_superoperator(
-            current_node, current_edges, second_half_prop)
-
-    # -- extract last state --
-    caps = _get_caps(process_tensors, step)
-    state_tensor = _apply_caps(current_node, current_edges, caps)
-    final_state = state_tensor.reshape(hs_dim, hs_dim)
-    states.append(final_state)
-
-    prog_bar.update(num_steps)
-    prog_bar.exit()
+        prog_bar.update(num_steps)
+    finally:
+        prog_bar.exit()
 
     # -- create dynamics object --
     if record_all:
@@ -356,28 +358,101 @@ def compute_dynamics_with_field(
     title = "--> Compute dynamics with field:"
     prog_bar = get_progress(progress_type)(num_steps, title)
     prog_bar.enter()
+    try:
 
-    for step in range(num_steps+1):
+        for step in range(num_steps+1):
 
-        # -- calculate time reached --
-        t = start_time + step * dt
+            # -- calculate time reached --
+            t = start_time + step * dt
 
-        # -- get pre & post measurement control list --
-        controls_tuple_list = [prepare_controls(step, control)
-                               for control in parsed_parameters_dict["control"]]
+            # -- get pre & post measurement control list --
+            controls_tuple_list = [
+                prepare_controls(step, control)
+                for control in parsed_parameters_dict["control"]]
 
-        # -- apply pre measurement control --
-        nodes_and_edges_list = [
-            _apply_system_superoperator(
-                current_node, current_edges, pre_measurement_control) \
-                for (current_node, current_edges), (pre_measurement_control,_) \
-                in zip(nodes_and_edges_list, controls_tuple_list)
-        ]
+            # -- apply pre measurement control --
+            nodes_and_edges_list = [
+                _apply_system_superoperator(
+                    current_node, current_edges, pre_measurement_control) \
+                    for (current_node, current_edges), \
+                        (pre_measurement_control,_) \
+                    in zip(nodes_and_edges_list, controls_tuple_list)
+            ]
 
-        if step == num_steps:
-            break
+            if step == num_steps:
+                break
 
-        # -- extract current states -- update field --
+            # -- extract current states -- update field --
+            caps_list = [_get_caps(process_tensors, step) for process_tensors
+                         in parsed_parameters_dict["process_tensors"]]
+
+            state_tensor_list = [_apply_caps(current_node, current_edges, caps)
+                                 for (current_node, current_edges), caps
+                                 in zip(nodes_and_edges_list, caps_list)]
+
+            state_list = [state_tensor.reshape((hs_dim, hs_dim))
+                          for state_tensor, hs_dim
+                          in zip(state_tensor_list,
+                                 parsed_parameters_dict["hs_dim"])]
+
+            if step == 0:
+                field = initial_field
+            else:
+                # Heun step from the previous time step to this one
+                field = compute_field(start_time + (step - 1) * dt, dt,
+                                      previous_state_list, field, state_list)
+            previous_state_list = state_list
+            if record_all:
+                system_states_list.append(state_list)
+                field_list.append(field)
+
+            prog_bar.update(step)
+
+            # -- apply post measurement control --
+            nodes_and_edges_list = [
+                _apply_system_superoperator(
+                    current_node, current_edges, post_measurement_control) \
+                    for (current_node, current_edges), \
+                        (_,post_measurement_control) \
+                    in zip(nodes_and_edges_list, controls_tuple_list)
+            ]
+
+            # -- propagate one time step --
+            propagator_tuples_list = [propagators(step, field,
+                                    mean_field_system.field_eom(t, state_list,
+                                                                field))
+                                    for propagators in propagators_list]
+
+            pt_mpos_list = [_get_pt_mpos(process_tensors, step)
+                            for process_tensors
+                            in parsed_parameters_dict["process_tensors"]]
+
+
+            # first half propagator
+            nodes_and_edges_list = [_apply_system_superoperator(
+                                        current_node, current_edges,
+                                        first_half_prop)
+                                        for (current_node, current_edges), \
+                                            (first_half_prop, second_half_prop)
+                                        in zip(nodes_and_edges_list,
+                                               propagator_tuples_list)]
+
+            # PT-MPO
+            nodes_and_edges_list = [_apply_pt_mpos(current_node, current_edges,
+                                                   pt_mpos)
+                                    for (current_node, current_edges), pt_mpos
+                                    in zip(nodes_and_edges_list, pt_mpos_list)]
+
+            # second half propagator
+            nodes_and_edges_list = [_apply_system_superoperator(
+                                        current_node, current_edges,
+                                        second_half_prop)
+                                    for (current_node, current_edges), \
+                                            (first_half_prop, second_half_prop)
+                                    in zip(nodes_and_edges_list,
+                                           propagator_tuples_list)]
+
+        # -- extract last states --
         caps_list = [_get_caps(process_tensors, step) for process_tensors
                      in parsed_parameters_dict["process_tensors"]]
 
@@ -385,91 +460,24 @@ def compute_dynamics_with_field(
                              for (current_node, current_edges), caps
                              in zip(nodes_and_edges_list, caps_list)]
 
-        state_list = [state_tensor.reshape((hs_dim, hs_dim))
-                      for state_tensor, hs_dim
-                      in zip(state_tensor_list,
-                             parsed_parameters_dict["hs_dim"])]
+        final_state_list = [state_tensor.reshape(hs_dim, hs_dim)
+                            for state_tensor, hs_dim
+                            in zip(state_tensor_list,
+                                   parsed_parameters_dict["hs_dim"])]
 
-        if step == 0:
-            field = initial_field
+        system_states_list.append(final_state_list)
+
+        if num_steps == 0:
+            final_field = initial_field
         else:
-            # Heun step from the previous time step to this one
-            field = compute_field(start_time + (step - 1) * dt, dt,
-                                  previous_state_list, field, state_list)
-        previous_state_list = state_list
-        if record_all:
-            system_states_list.append(state_list)
-            field_list.append(field)
+            final_field = compute_field(start_time + (num_steps - 1) * dt, dt,
+                                        previous_state_list, field,
+                                        final_state_list)
+        field_list.append(final_field)
 
-        prog_bar.update(step)
-
-        # -- apply post measurement control --
-        nodes_and_edges_list = [
-            _apply_system_superoperator(
-                current_node, current_edges, post_measurement_control) \
-                for (current_node, current_edges), (_,post_measurement_control)\
-                in zip(nodes_and_edges_list, controls_tuple_list)
-        ]
-
-        # -- propagate one time step --
-        propagator_tuples_list = [propagators(step, field,
-                                mean_field_system.field_eom(t, state_list,
-                                                            field))
-                                for propagators in propagators_list]
-
-        pt_mpos_list = [_get_pt_mpos(process_tensors, step) for process_tensors
-                        in parsed_parameters_dict["process_tensors"]]
-
-
-        # first half propagator
-        nodes_and_edges_list = [_apply_system_superoperator(
-                                    current_node, current_edges,
-                                    first_half_prop)
-                                    for (current_node, current_edges), \
-                                        (first_half_prop, second_half_prop)
-                                    in zip(nodes_and_edges_list,
-                                           propagator_tuples_list)]
-
-        # PT-MPO
-        nodes_and_edges_list = [_apply_pt_mpos(current_node, current_edges,
-                                               pt_mpos)
-                                for (current_node, current_edges), pt_mpos
-                                in zip(nodes_and_edges_list, pt_mpos_list)]
-
-        # second half propagator
-        nodes_and_edges_list = [_apply_system_superoperator(
-                                    current_node, current_edges,
-                                    second_half_prop)
-                                for (current_node, current_edges), \
-                                        (first_half_prop, second_half_prop)
-                                in zip(nodes_and_edges_list,
-                                       propagator_tuples_list)]
-
-    # -- extract last states --
-    caps_list = [_get_caps(process_tensors, step) for process_tensors
-                 in parsed_parameters_dict["process_tensors"]]
-
-    state_tensor_list = [_apply_caps(current_node, current_edges, caps)
-                         for (current_node, current_edges), caps
-                         in zip(nodes_and_edges_list, caps_list)]
-
-    final_state_list = [state_tensor.reshape(hs_dim, hs_dim)
-                        for state_tensor, hs_dim
-                        in zip(state_tensor_list,
-                               parsed_parameters_dict["hs_dim"])]
-
-    system_states_list.append(final_state_list)
-
-    if num_steps == 0:
-        final_field = initial_field
-    else:
-        final_field = compute_field(start_time + (num_steps - 1) * dt, dt,
-                                    previous_state_list, field,
-                                    final_state_list)
-    field_list.append(final_field)
-
-    prog_bar.update(num_steps)
-    prog_bar.exit()
+        prog_bar.update(num_steps)
+    finally:
+        prog_bar.exit()
 
     # -- create dynamics object --
     if record_all:
